@@ -193,9 +193,9 @@ def keysUnder (b : Bool) (kvs : List (Path × H)) : List (Path × H) :=
 
 /-- the tree of height `h` holding `kvs` (keys of length `h`, distinct); `none` = empty -/
 def build : Nat → List (Path × H) → Trie H
-  | 0, kvs => match kvs with
-    | (_, v) :: _ => some (.leaf v)
-    | [] => none
+  | 0, kvs => match kvs.getLast? with   -- `Update` of the same key twice: the last value stays
+    | some (_, v) => some (.leaf v)
+    | none => none
   | _ + 1, [] => none
   | h + 1, kvs =>
     match build h (keysUnder false kvs), build h (keysUnder true kvs) with
@@ -295,6 +295,18 @@ def verify2 [DecidableEq H] (A : HashAlg H) (cfg : Cfg) (root : H) (key : Path) 
     Res H :=
   if cfg.zeroRoot && root = A.zero then .ok A.zero else verify2Aux A cfg proof verifyFuel root key
 
+/-- strict lexicographic order on bit strings (= numeric order for equal lengths) -/
+def pathLt : Path → Path → Bool
+  | a :: as, b :: bs => if a = b then pathLt as bs else (!a && b)
+  | _, _ => false
+
+/-- no leaf holds the zero felt (the tries never store zero) -/
+def Tree.NZ (A : HashAlg H) : Tree H → Prop
+  | .leaf v => v ≠ A.zero
+  | .bin l r => l.NZ A ∧ r.NZ A
+  | .edge _ c => c.NZ A
+
+
 /-! ### trie2 range proofs: the single-element and the empty-range case -/
 
 /-- Variant of `trie2.VerifyRangeProof`'s path resolution the harness is looking at.
@@ -307,10 +319,16 @@ structure RCfg where
   checkHash : Bool
   earlyValue : Bool
   leafHash : Bool
+  /-- a zero root is the empty trie: the empty-range claim holds without looking at the node set
+  (repaired); the code as it is looks the zero root up and fails -/
+  zeroRoot : Bool
+  /-- multi-element ranges: `unset` also clears a boundary leaf that hangs directly under a binary
+  node (repaired); the code as it is leaves it in place -/
+  unsetLeaf : Bool
   deriving Repr, DecidableEq
 
-def RCfg.asIs : RCfg := ⟨false, true, false⟩
-def RCfg.strict : RCfg := ⟨true, false, true⟩
+def RCfg.asIs : RCfg := ⟨false, true, false, false, false⟩
+def RCfg.strict : RCfg := ⟨true, false, true, true, true⟩
 
 /-- `proofToPath(rootHash, nil, key, proof, allowNonExistent)` on a fresh root: the nodes resolved
 along the key, root first, each with the key that remained when it was entered, and the value
@@ -365,9 +383,196 @@ def verifySingle [DecidableEq H] (A : HashAlg H) (rc : RCfg) (root : H) (key : P
 
 /-- `VerifyRangeProof(root, first, nil, nil, proof)` — `verifyEmptyRangeProof`. -/
 def verifyEmpty [DecidableEq H] (A : HashAlg H) (rc : RCfg) (root : H) (first : Path) (P : PSet H) : RRes :=
+  if rc.zeroRoot && root = A.zero then .ok false else
   match resolveAux A rc P true verifyFuel root first with
   | none => .err
   | some (path, val) => if val.isSome || hasRight path then .err else .ok false
+
+/-! ### trie2 range proofs: the general case (two edge paths) -/
+
+/-- The partial trie `proofToPath` links together from the node set: resolved nodes, hash nodes for
+what was not fetched, nil for what `unsetInternal` removed. -/
+inductive PT (H : Type) where
+  | nil
+  | hash (h : H)
+  | leaf (v : H)
+  | bin (l r : PT H)
+  | edge (p : Path) (c : PT H)
+  deriving Repr
+
+def PT.phash (A : HashAlg H) : PT H → H
+  | .nil => A.zero
+  | .hash h => h
+  | .leaf v => v
+  | .bin l r => A.bin (l.phash A) (r.phash A)
+  | .edge p c => A.edge (c.phash A) p
+
+def ptOfChild (c : Child H) : PT H :=
+  match c.tag with
+  | .nil => .nil
+  | .hash => .hash c.h
+  | .value => .leaf c.h
+
+def ptOfNode : PNode H → PT H
+  | .bin l r _ => .bin (ptOfChild l) (ptOfChild r)
+  | .edge p c _ => .edge p (ptOfChild c)
+
+/-- `proofToPath(rootHash, root, key, proof, allowNonExistent = true)`: resolve the hash nodes met
+along `key`; `none` = error. -/
+def resolvePT [DecidableEq H] (A : HashAlg H) (rc : RCfg) (P : PSet H) : Nat → PT H → Path → Option (PT H)
+  | 0, _, _ => none
+  | fuel + 1, t, key =>
+    match t with
+    | .nil => some .nil
+    | .leaf v => if rc.earlyValue || key.length = 0 then some (.leaf v) else none
+    | .hash h =>
+      if rc.leafHash && key.length = 0 then some (.leaf h) else
+      match P.get h with
+      | none => none
+      | some nd =>
+        if rc.checkHash && nd.hash A ≠ h then none else resolvePT A rc P fuel (ptOfNode nd) key
+    | .bin l r =>
+      if key.headD false then (resolvePT A rc P fuel r (key.drop 1)).map (fun r' => .bin l r')
+      else (resolvePT A rc P fuel l (key.drop 1)).map (fun l' => .bin l' r)
+    | .edge p c =>
+      if !pathCompat p key then some (.edge p c)
+      else (resolvePT A rc P fuel c (key.drop p.length)).map (fun c' => .edge p c')
+
+/-- what is known about `k` in a partial trie: `some v` (v = zero: absent), `none` = not resolved /
+shape inconsistent with the key length -/
+def PT.lookup (A : HashAlg H) : PT H → Path → Option H
+  | .nil, _ => some A.zero
+  | .hash _, _ => none
+  | .leaf v, k => if k.length = 0 then some v else none
+  | .bin l r, k => match k with
+    | [] => none
+    | b :: k' => if b then r.lookup A k' else l.lookup A k'
+  | .edge p c, k =>
+    if p.length = 0 then none
+    else if p.isPrefixOf k then c.lookup A (k.drop p.length)
+    else if p.length ≤ k.length then some A.zero else none
+
+/-- position of a subtree relative to one end of the interval -/
+inductive Bd where
+  | unb              -- the whole subtree is on the inner side of this end
+  | at (k : Path)    -- the end runs through the subtree: remaining boundary key
+  | out              -- the whole subtree is beyond this end
+  deriving Repr, DecidableEq
+
+def lowerBin : Bd → Bd × Bd
+  | .unb => (.unb, .unb)
+  | .out => (.out, .out)
+  | .at [] => (.unb, .unb)
+  | .at (b :: k) => if b then (.out, .at k) else (.at k, .unb)
+
+def upperBin : Bd → Bd × Bd
+  | .unb => (.unb, .unb)
+  | .out => (.out, .out)
+  | .at [] => (.unb, .unb)
+  | .at (b :: k) => if b then (.unb, .at k) else (.at k, .out)
+
+def lowerEdge (p : Path) : Bd → Bd
+  | .unb => .unb
+  | .out => .out
+  | .at k => if p.isPrefixOf k then .at (k.drop p.length)
+             else if pathLt (k.take p.length) p then .unb else .out
+
+def upperEdge (p : Path) : Bd → Bd
+  | .unb => .unb
+  | .out => .out
+  | .at k => if p.isPrefixOf k then .at (k.drop p.length)
+             else if pathLt p (k.take p.length) then .unb else .out
+
+def embed : Trie H → PT H
+  | none => .nil
+  | some (.leaf v) => .leaf v
+  | some (.bin l r) => .bin (embed (some l)) (embed (some r))
+  | some (.edge p c) => .edge p (embed (some c))
+
+/-- the keys below an edge path, with the path stripped; `none` if some key is not below it -/
+def stripPrefix (p : Path) (kvs : List (Path × H)) : Option (List (Path × H)) :=
+  if kvs.all (fun kv => p.isPrefixOf kv.1) then some (kvs.map (fun kv => (kv.1.drop p.length, kv.2)))
+  else none
+
+/-- The trie `verifyRangeWithProof` hashes: the resolved partial trie with everything between the two
+ends removed (`unsetInternal`) and the claimed entries inserted (`Trie.Update`), as a function of the
+position of each subtree relative to the interval: beyond an end — untouched (an entry claimed there
+must already be there with that value, else the insertion changes or breaks the trie); strictly
+inside — replaced by the trie of the claimed entries; on an end — descend. `none` = rejected. -/
+def fill [DecidableEq H] (A : HashAlg H) (rc : RCfg) : PT H → Bd → Bd → Nat → Bool → List (Path × H) → Option (PT H)
+  | t, L, U, h, parentBin, kvs =>
+    if L = .out ∨ U = .out then
+      (if kvs.all (fun kv => decide (t.lookup A kv.1 = some kv.2)) then some t else none)
+    else if L = .unb ∧ U = .unb then some (embed (build h kvs))
+    else match t with
+      | .nil => some (embed (build h kvs))
+      | .hash _ => none
+      | .leaf v =>
+        if h ≠ 0 then none
+        else if !rc.unsetLeaf && parentBin && kvs.isEmpty then some (.leaf v)
+        else some (embed (build 0 kvs))
+      | .bin l r =>
+        match h with
+        | 0 => none
+        | h' + 1 =>
+          match fill A rc l (lowerBin L).1 (upperBin U).1 h' true (keysUnder false kvs),
+                fill A rc r (lowerBin L).2 (upperBin U).2 h' true (keysUnder true kvs) with
+          | some l', some r' => some (.bin l' r')
+          | _, _ => none
+      | .edge p c =>
+        if p.length = 0 ∨ h < p.length then none
+        else
+          let Lc := lowerEdge p L
+          let Uc := upperEdge p U
+          if Lc = .out ∨ Uc = .out then
+            (if kvs.all (fun kv => decide ((PT.edge p c).lookup A kv.1 = some kv.2)) then some (.edge p c) else none)
+          else if Lc = .unb ∧ Uc = .unb then some (embed (build h kvs))
+          else match stripPrefix p kvs with
+            | none => none
+            | some kvs' =>
+              match fill A rc c Lc Uc (h - p.length) false kvs' with
+              | none => none
+              | some .nil => some .nil
+              | some c' => some (.edge p c')
+
+/-- `hasRightElement(root, key)` on the partial trie -/
+def hasRightPT : PT H → Path → Bool
+  | .bin l r, k => match k with
+    | [] => match r with | .nil => false | _ => true
+    | b :: k' =>
+      if !b && (match r with | .nil => false | _ => true) then true
+      else if b then hasRightPT r k' else hasRightPT l k'
+  | .edge p c, k =>
+    if !pathCompat p k then
+      cmpGt (if k.length > p.length then p ++ List.replicate (k.length - p.length) false else p) k
+    else hasRightPT c (k.drop p.length)
+  | _, _ => false
+
+def keysNonDecreasing : List (Path × H) → Bool
+  | a :: b :: rest => !pathLt b.1 a.1 && keysNonDecreasing (b :: rest)
+  | _ => true
+
+/-- `VerifyRangeProof(root, first, keys, values, proof)` with at least one key and `first ≠ last` or more
+than one key — `verifyRangeWithProof`. Keys are `height` bits long. -/
+def verifyMulti [DecidableEq H] (A : HashAlg H) (rc : RCfg) (root : H) (first : Path) (kvs : List (Path × H))
+    (P : PSet H) : RRes :=
+  match kvs.getLast? with
+  | none => .err
+  | some lastKV =>
+    let last := lastKV.1
+    if kvs.any (fun kv => decide (kv.2 = A.zero)) then .err
+    else if !keysNonDecreasing kvs then .err
+    else if !pathLt first last then .err
+    else
+      match resolvePT A rc P (2 * verifyFuel) (.hash root) first with
+      | none => .err
+      | some t1 =>
+        match resolvePT A rc P (2 * verifyFuel) t1 last with
+        | none => .err
+        | some t2 =>
+          match fill A rc t2 (.at first) (.at last) first.length false kvs with
+          | none => .err
+          | some f => if f.phash A = root then .ok (hasRightPT t2 last) else .err
 
 /-! ### The free term algebra (ideal hash) -/
 
